@@ -105,7 +105,7 @@ const EXTREME_TEMPLATES: &[&str] = &[
 
 const EXTREME_VALUES: &[&str] = &[
     "1e30", "1e308", "1e-320", "2^126", "2^127", "2^63", "(2^63 - 1)", "9223372036854775807", "18446744073709551616", "65536", "65535", "4294967296",
-    "0", "-1", "1/3", "0.1+0.2", "1e3", "170", "171", "NaN", "inf", "-inf", "0.5", "1e18", "9007199254740993", "1e-9", "3", "12", "100000", "2^31", "1/0", "(1/3)^-1",
+    "0", "-1", "1/3", "0.1+0.2", "1e3", "170", "171", "NaN", "inf", "-inf", "0.5", "1e18", "9007199254740993", "1e-9", "3", "12", "100000", "2^31", "1/0", "(1/3)^-1", "1e999", "1e-400",
 ];
 
 fn corpus() -> &'static Vec<String> {
@@ -428,6 +428,32 @@ fn has_polymorphic_literal_with_unit(text: &str) -> bool {
             }
             i += 1;
         }
+    }
+    // numeric literals whose value is 0 or overflows to infinity (`0.000`, `0x0`, `1e-999`,
+    // `1e999`) are polymorphic in the same way
+    let mut i = 0;
+    while i < b.len() {
+        let starts = (b[i].is_ascii_digit() || (b[i] == '.' && i + 1 < b.len() && b[i + 1].is_ascii_digit())) && (i == 0 || !is_word(b[i - 1]));
+        if !starts {
+            i += 1;
+            continue;
+        }
+        let mut j = i;
+        while j < b.len() && (b[j].is_ascii_alphanumeric() || b[j] == '_' || b[j] == '.' || ((b[j] == '+' || b[j] == '-') && j > i && (b[j - 1] == 'e' || b[j - 1] == 'E'))) {
+            j += 1;
+        }
+        let tok: String = b[i..j].iter().filter(|c| **c != '_').collect();
+        let lower = tok.to_ascii_lowercase();
+        let zero_or_inf = if let Some(d) = lower.strip_prefix("0x").or(lower.strip_prefix("0o")).or(lower.strip_prefix("0b")) {
+            !d.is_empty() && d.chars().all(|c| c == '0')
+        } else {
+            // the longest prefix that is a decimal literal (`2m` is `2` followed by a unit)
+            (1..=tok.len()).rev().filter(|k| tok.is_char_boundary(*k)).find_map(|k| tok[..k].parse::<f64>().ok()).map(|v| v == 0.0 || v.is_infinite()).unwrap_or(false)
+        };
+        if zero_or_inf {
+            return true;
+        }
+        i = j.max(i + 1);
     }
     false
 }
